@@ -397,6 +397,10 @@ func main() {
 	for i := 0; i < nRand; i++ {
 		mk(gen.RandomNet(rng, 5, []string{"add", "mult", "inc", "dec", "cpy"}))
 	}
+	// bonds without a processor on one or both ends: pass-through wires and tapped inputs
+	for i := 0; i < nRand/6; i++ {
+		mk(gen.RandomNetIO(rng, 3, []string{"add", "inc", "cpy"}))
+	}
 	hx.Par(len(cs), func(i int) {
 		one(cs[i])
 		if i == 0 || i == 20 {
